@@ -1,3 +1,3 @@
 SPECIFICATION Spec
-INVARIANTS Emit EmitNN
+INVARIANTS Emit EmitNN EmitArgs
 CHECK_DEADLOCK FALSE
